@@ -15,6 +15,12 @@ Proof.
   destruct (runF w o (stepk (cworld_of w) (kind o)) (fst (fst s)) (snd (fst s)) (st_d s)) as [[[c g] d] r]; reflexivity.
 Qed.
 
+Lemma Dinv_step i w o s : (injecting (kind o) = true -> arg_datum o = inj_d i) ->
+  Dinv i (st_g s) (st_d s) -> Dinv i (st_g (fst (step w o s))) (st_d (fst (step w o s))).
+Proof. intros HA D. unfold step. apply Dinv_run; assumption. Qed.
+
+Opaque step cstep stepk.
+
 (* ---- the injected value and the legality bookkeeping ---- *)
 Lemma inj_of_some o i : inj_of o = Some i ->
   arg_datum o = inj_d i /\ injecting (kind o) = true /\ inj_kind (kind o) = ik i.
@@ -40,7 +46,7 @@ Qed.
 
 Lemma linj_keep w ops : forall l lf, legal_from w l ops = Some lf -> l_inj l <> INone -> l_inj lf = l_inj l.
 Proof.
-  induction ops as [|o r IH]; intros l lf L N; cbn in L.
+  induction ops as [|o r IH]; intros l lf L N; cbn [legal_from] in L.
   - injection L as <-. reflexivity.
   - destruct (legal_step w l o) as [l1|] eqn:E; [|discriminate].
     destruct (legal_stepk_facts _ _ _ _ E) as [A _].
@@ -51,7 +57,7 @@ Qed.
 Lemma linj_first w ops : forall l lf, legal_from w l ops = Some lf -> l_inj l = INone ->
   l_inj lf = match injected ops with Some i => ik i | None => INone end.
 Proof.
-  induction ops as [|o r IH]; intros l lf L N; cbn in L |- *.
+  induction ops as [|o r IH]; intros l lf L N; cbn [legal_from injected] in L |- *.
   - injection L as <-. exact N.
   - destruct (legal_step w l o) as [l1|] eqn:E; [|discriminate].
     destruct (legal_stepk_facts _ _ _ _ E) as [A _]. rewrite N in A.
@@ -69,28 +75,28 @@ Lemma run_all w : world_ok w = true -> forall i ops l s lf,
   no_panic (run w s ops) /\ inR (cworld_of w) (lf, ctl (final w s ops)) /\
   Dinv i (st_g (final w s ops)) (st_d (final w s ops)).
 Proof.
-  intros W i ops. induction ops as [|o r IH]; intros l s lf I D J L; cbn in L |- *.
-  - injection L as <-. repeat split; [constructor | exact I | exact D].
+  intros W i ops. induction ops as [|o r IH]; intros l s lf I D J L; cbn [legal_from run final] in L |- *.
+  - injection L as <-. split; [constructor | split; [exact I | exact D]].
   - destruct (legal_step w l o) as [l1|] eqn:E; [|discriminate].
     destruct (legal_stepk_facts _ _ _ _ E) as [_ [F1 F2]].
     destruct (inR_step (cworld_of w) l (st_c s) (st_g s) (kind o) l1 W I E) as [P R].
     destruct (step_ctl w o s) as [C S].
     assert (HA : injecting (kind o) = true -> arg_datum o = inj_d i).
     { intros Q. destruct (inj_of o) as [i'|] eqn:K.
-      - destruct (inj_of_some o i' K) as [A _]. rewrite A. f_equal. symmetry.
-        apply J; [exact (proj1 (F1 Q)) | cbn; rewrite K; reflexivity].
+      - destruct (inj_of_some o i' K) as [A _]. rewrite A. f_equal.
+        apply J; [exact (proj1 (F1 Q)) | cbn [injected]; rewrite K; reflexivity].
       - destruct (inj_of_none o K) as [B _]. congruence. }
     assert (D1 : Dinv i (st_g (fst (step w o s))) (st_d (fst (step w o s)))).
-    { unfold step. apply Dinv_run; assumption. }
+    { apply Dinv_step; assumption. }
     assert (J1 : l_set l1 = false -> forall i', injected r = Some i' -> i' = i).
     { intros Q i' K. destruct (inj_of o) as [i0|] eqn:K0.
       - destruct (inj_of_some o i0 K0) as [_ [B _]]. destruct (F1 B) as [_ T]. congruence.
       - apply J; [destruct (l_set l) eqn:T; [rewrite (F2 eq_refl) in Q; discriminate | reflexivity]
-                 | cbn; rewrite K0; exact K]. }
-    destruct (step w o s) as [s1 x] eqn:Es. cbn in *.
+                 | cbn [injected]; rewrite K0; exact K]. }
+    destruct (step w o s) as [s1 x] eqn:Es. cbn [fst snd] in C, S, D1 |- *.
     rewrite <- C in R.
     destruct (IH l1 s1 lf R D1 J1 L) as [A [B1 B2]].
-    repeat split; [constructor; [rewrite S; exact P | exact A] | exact B1 | exact B2].
+    split; [constructor; [rewrite S; exact P | exact A] | split; [exact B1 | exact B2]].
 Qed.
 
 Lemma Dinv_init i : Dinv i ginit dinit.
@@ -137,10 +143,12 @@ Proof.
   intros w ops W G L c. destruct (legal_lf w ops L) as [lf E].
   pose proof (final_node w ops lf W E) as N. unfold node_ok in N. cbv beta iota delta [fst snd ctl] in N.
   split_conj. fold c in *.
-  match goal with K : keys_p _ _ = true |- _ => unfold keys_p in K; cbn in K; rewrite G in K end.
+  match goal with K : keys_p _ _ = true |- _ =>
+    unfold keys_p in K; change (cw_golang (cworld_of w)) with (w_golang w) in K;
+    change (cw_tls13 (cworld_of w)) with (w_tls13 w) in K; rewrite G in K end.
   split_conj. split.
   - intros St. match goal with K : implb (bstatus_eqb (status c) ByUtls) _ = true |- _ => rewrite St in K; exact K end.
-  - intros A T. match goal with K : implb (applied c && _) _ = true |- _ => rewrite A, T in K; cbn in K end.
+  - intros A T. match goal with K : implb (applied c && _) _ = true |- _ => rewrite A, T in K; cbn [andb implb] in K end.
     split_conj. auto.
 Qed.
 
@@ -151,7 +159,9 @@ Proof.
   intros w ops W G L c St. destruct (legal_lf w ops L) as [lf E].
   pose proof (final_node w ops lf W E) as N. unfold node_ok in N. cbv beta iota delta [fst snd ctl] in N.
   split_conj. fold c in *.
-  match goal with K : keys_p _ _ = true |- _ => unfold keys_p in K; cbn in K; rewrite G, St in K; cbn in K end.
+  match goal with K : keys_p _ _ = true |- _ =>
+    unfold keys_p in K; change (cw_golang (cworld_of w)) with (w_golang w) in K; rewrite G, St in K;
+    cbn [bstatus_eqb implb] in K end.
   split_conj. auto.
 Qed.
 
@@ -179,7 +189,8 @@ Theorem wire_ticket : forall w ops tk se, world_ok w = true -> w_golang w = fals
 Proof.
   intros w ops tk se W G L J s St. destruct (legal_lf w ops L) as [lf E].
   destruct (final_wire w ops lf _ W G E J St) as [Wp [Li D]]. fold s in Wp, D.
-  unfold wire_p in Wp. cbn in Wp. rewrite G, St, Li in Wp. cbn in Wp. split_conj.
+  unfold wire_p in Wp. change (cw_golang (cworld_of w)) with (w_golang w) in Wp. rewrite G, St, Li in Wp.
+  cbn [orb negb bstatus_eqb ik] in Wp. split_conj.
   destruct D as (_ & _ & _ & _ & D5 & D6 & _ & D8 & _).
   repeat match goal with H : is_inj _ = true |- _ => apply is_inj_eq in H end.
   repeat split; [exact (D5 ltac:(assumption)) | exact (D6 ltac:(assumption)) | exact (D8 ltac:(assumption))].
@@ -193,7 +204,8 @@ Theorem wire_psk : forall w ops lb se, world_ok w = true -> w_golang w = false -
 Proof.
   intros w ops lb se W G L J s St. destruct (legal_lf w ops L) as [lf E].
   destruct (final_wire w ops lf _ W G E J St) as [Wp [Li D]]. fold s in Wp, D.
-  unfold wire_p in Wp. cbn in Wp. rewrite G, St, Li in Wp. cbn in Wp. split_conj.
+  unfold wire_p in Wp. change (cw_golang (cworld_of w)) with (w_golang w) in Wp. rewrite G, St, Li in Wp.
+  cbn [orb negb bstatus_eqb ik] in Wp. split_conj.
   destruct D as (_ & _ & _ & _ & D5 & _ & _ & _ & D9).
   repeat match goal with H : is_inj _ = true |- _ => apply is_inj_eq in H end.
   split; [exact (D5 ltac:(assumption)) | exact (D9 ltac:(assumption))].
@@ -210,6 +222,6 @@ Proof.
   split_conj.
   match goal with K : forallb _ kinds = true |- _ => rewrite forallb_forall in K; pose proof (K (kind o) (kinds_complete _)) as Q end.
   unfold kind_ok in Q. apply andb_prop in Q. destruct Q as [_ Q].
-  unfold forbidden in F. cbn in Q. rewrite G, F in Q. cbn in Q.
+  unfold forbidden in F. change (cw_golang (cworld_of w)) with (w_golang w) in Q. rewrite G, F in Q. cbn [orb negb] in Q.
   destruct (step_ctl w o (final w (init w) ops)) as [_ S]. rewrite S. exact Q.
 Qed.
